@@ -27,9 +27,7 @@ impl TraitImpl for PartialOrd {
 		trait_: &DeriveTrait,
 		body: &TokenStream,
 	) -> TokenStream {
-		let body = if (derive_where.generics.is_empty() || derive_where.any_custom_bound())
-			&& derive_where.contains(Trait::Ord)
-		{
+		let body = if derive_where.all_custom_bound() && derive_where.contains(Trait::Ord) {
 			quote! {
 				::core::option::Option::Some(::core::cmp::Ord::cmp(self, __other))
 			}
@@ -53,8 +51,7 @@ impl TraitImpl for PartialOrd {
 	) -> TokenStream {
 		if data.is_empty(**trait_)
 			|| data.is_incomparable()
-			|| ((derive_where.generics.is_empty() || derive_where.any_custom_bound())
-				&& derive_where.contains(Trait::Ord))
+			|| (derive_where.all_custom_bound() && derive_where.contains(Trait::Ord))
 		{
 			TokenStream::new()
 		} else {
